@@ -20,6 +20,8 @@ class Impl:
         import logging
         cssutils.log.setLevel(logging.FATAL)
         self.parser = cssutils.CSSParser(fetcher=lambda url: (None, ''))
+        # comments off: the sheet tokenizer drops the comments and leaves runs of S tokens in the token lists
+        self.parser_nc = cssutils.CSSParser(fetcher=lambda url: (None, ''), parseComments=False)
         self._vtext = {}
         self.captured = None
         self._install_capture()
@@ -122,10 +124,10 @@ class Impl:
             out = self.call(h.raising, f)
             steps.append(('set %d 1 %s' % (r, self.enc_toks(self.tokenize(h.start))), out + ' # ' + self.obs(ml)))
             return ml, steps
-        css = ('@media %s {a{b:c}}' if h.context == 'media' else '@import "x" %s;') % h.start
+        css = ('@media %s {a{b:c}}' if h.context.startswith('media') else '@import "x" %s;') % h.start
         self.captured = []
         try:
-            self.parser.parseString(css)
+            (self.parser_nc if h.context.endswith('-nc') else self.parser).parseString(css)
             cap = self.captured
         finally:
             self.captured = None
